@@ -138,9 +138,12 @@ func (sc *Scenario) Exec(x *mc.Exec, faults bool) *RunOut {
 }
 
 // On runs the scenario's request on an existing application (t = controlling thread or nil).
-func (sc *Scenario) On(a *ap.App, t *mc.T) *RunOut {
+func (sc *Scenario) On(a *ap.App, t *mc.T) *RunOut { return sc.OnReq(a, t, a.NewReq(t)) }
+
+// OnReq is On with a request monitor created beforehand (fixed request numbering).
+func (sc *Scenario) OnReq(a *ap.App, t *mc.T, req *ap.Req) *RunOut {
 	out := &RunOut{App: a, W: ap.NewWriter()}
-	req := a.NewReq(t)
+	req.T = t
 	out.Req = req
 	ctx := ap.WithReq(context.Background(), req)
 	body := sc.Raw
